@@ -1015,7 +1015,7 @@ reg('C17', genprops.run_C17, ['Prop_C17.v'], I6RULE + 'trace jobs: sentences and
     level_note=MODEL_NOTE + ' The traced machine is the abstract list-stack machine; its equality with the array driver is C08_array_driver.')
 reg('C18', genprops.run_C18, ['Prop_C18.v'], BERULE + 'in-process run with DebugFlags on (the `debug` listing on stdout) and DrawGrammar on the table of the same run; the listing is parsed back into states, items, transitions and lookahead sets and compared with LR0Closure, GTable and LookAheadSet of that run; the DOT text is parsed back into nodes (items, reduce annotations, accept mark) and edges and compared with GTable cell by cell. non-trivial = grammars whose table has both reductions and an accepting state',
     technique="Coq model of DrawGrammar with theorems (edges = shifts/gotos, reduce lines = reductions with their lookahead symbol, accept mark = accepting state, nodes = states with their items, for the tables of one run; listing covers the tables) + listing and DOT graph parsed back and compared with automaton, lookahead sets, table and the model's diagram of the same run",
-    level_text="Proved in Coq for the model of DrawGrammar (Draw.v) on the automaton and dense matrix of one generate_tables run, read as every generated parser reads it: one node per state numbered as in the table with that state's items, an edge exactly for every shift/goto, a reduce line exactly for every reduction under its lookahead symbol, the accepting mark exactly where the table accepts (C18_diagram_edges, C18_diagram_nodes, C18_diagram_pipeline); the content of the listing (automaton, transitions, lookahead sets) covers the tables: every shift/goto is a listed transition, every reduction a complete item under a symbol of its listed lookahead set (C18_listing_covers_tables; the converse fails exactly where conflict resolution dropped an action); joining fields with a separator is invertible when no field contains it (C18_label_injective). On every run the extracted model diagram is computed from the implementation's own table and compared with the DOT text parsed back (nodes, record fields, edges, marks), and the debug listing is parsed back and compared with LR0Closure, LookAheadSet and GTable of that run.",
+    level_text="Proved in Coq for the model of DrawGrammar (Draw.v) on the automaton and dense matrix of one generate_tables run, read as every generated parser reads it: one node per state numbered as in the table with that state's items, an edge exactly for every shift/goto, a reduce line exactly for every reduction under its lookahead symbol, the accepting mark exactly where the table accepts (C18_diagram_edges, C18_diagram_nodes, C18_diagram_pipeline); the content of the listing (automaton, transitions, lookahead sets) covers the tables: every shift/goto is a listed transition, every reduction a complete item under a symbol of its listed lookahead set (C18_listing_covers_tables; the converse fails exactly where conflict resolution dropped an action); for the model of EscapeDotGraph: escaped names read back, every record metacharacter is protected, and the fields of a label are recovered whatever the names contain (C18_escape_roundtrip, C18_escape_protected, C18_label_fields; C18_label_injective is the older statement for separator-free fields). On every run the extracted model diagram is computed from the implementation's own table and compared with the DOT text parsed back (nodes, record fields, edges, marks), the real EscapeDotGraph is compared with the model on symbol names and metacharacter-rich strings, and the debug listing is parsed back and compared with LR0Closure, LookAheadSet and GTable of that run.",
     level_note=MODEL_NOTE + ' `dot` is not installed: SaveGraph is not exercised, the DOT text is taken from DrawGrammar(...).String().')
 
 NOT_CLAIMED = {}
